@@ -111,6 +111,55 @@ def cs_stage(ctx, pid, light=False):
     return events, mine
 
 
+# ----------------------------------------------------------------------------- SignModel: the COSE_Sign life cycle as a state machine
+SG_CONSTS = dict(Algs='{"A", "B"}', Keys='{"k1", "k2"}', Exts='{"none", "e1"}')
+SG_PROPS = ["SG_Exact", "SG_SignAllOrError", "SG_NoEmptyOnWire", "SG_SignThenVerify", "SG_ReadOnly", "SG_Atomic"]
+SG_INVS = ["SG_Positional", "SG_RoundTrip"]
+
+
+def sg_stage(ctx, pid, light=False):
+    """SignModel (owner: C11): model checking, behaviours replayed on a real SignMessage, trace validation; returns the events and the
+    rejections that belong to property pid"""
+    if pid == "C11":
+        mc(ctx, "SignModel", cfgtext(invariants=SG_INVS, props=SG_PROPS, constants=dict(MaxHist=0, Record="FALSE", Scope='"core"', MaxLevel=0, **SG_CONSTS),
+                                     extra="VIEW View\n"), timeout=1800, heap="8g")
+        mc(ctx, "SignModel", cfgtext(invariants=SG_INVS, props=SG_PROPS, constants=dict(MaxHist=0, Record="FALSE", Scope='"all"', MaxLevel=4 if ctx.quick() else 6, **SG_CONSTS),
+                                     extra="VIEW View\nCONSTRAINT LevelBound\n"), timeout=3000, heap="8g")
+    n, depth = (1200, 10) if ctx.quick() else ((20000, 14) if pid == "C11" else (4000, 14))
+    consts = dict(Record="TRUE", Scope='"all"', MaxLevel=0, **SG_CONSTS)
+    cases = []
+    if not light:
+        # every behaviour of length 2 over one algorithm and no external data, from four points of the life cycle (thorough: all constants from the start)
+        small = dict(consts, Algs='{"A"}', Exts='{"none"}')
+        for pfx, plen in ((0, 0), (1, 1), (2, 3), (3, 1)):
+            cases += gen(ctx, "Gen_Sg", cfgtext(spec="GSpec", invariants=["Emit"], constants=dict(MaxHist=plen + 2, PrefixId=pfx, **small)), timeout=1200, heap="8g")
+        if not ctx.quick():
+            cases += gen(ctx, "Gen_Sg", cfgtext(spec="GSpec", invariants=["Emit"], constants=dict(MaxHist=2, PrefixId=0, **consts)), timeout=1200, heap="8g")
+    cases += gen(ctx, "Gen_Sg", cfgtext(invariants=["Emit"], constants=dict(MaxHist=depth, PrefixId=0, **consts)), simulate=max(1, n // 50), depth=depth + 2, seed=ctx.seed, timeout=1200, heap="8g")
+    events = harness(ctx, ["exec", "memflow"], cases)
+    jc = "".join("CONSTANT %s = %s\n" % kv for kv in dict(MaxHist=0, Record="FALSE", Scope='"all"', MaxLevel=0, **SG_CONSTS).items())
+    rej = judge(ctx, "Trace_Sg", events, per_shard=300, extra_cfg=jc)
+    mine, other = {}, 0
+    for idx, reasons in rej.items():
+        r = [x for x in reasons if x.startswith(pid + ":") or x.startswith("infra-")]
+        other += len(reasons) - len(r)
+        if r:
+            mine[idx] = r
+    ctx.notes["signmodel_behaviours_replayed"] = len(events)
+    ctx.notes["signmodel_rejections_attributed_to_other_properties"] = other
+    return events, mine
+
+
+def with_sg_model(ctx, pid, events, rejects, light=False):
+    mev, mrej = sg_stage(ctx, pid, light)
+    base = len(events)
+    events = events + mev
+    rejects = dict(rejects)
+    for idx, r in mrej.items():
+        rejects[base + idx] = r
+    return events, rejects
+
+
 def with_cs_model(ctx, pid, events, rejects, light=False):
     mev, mrej = cs_stage(ctx, pid, light)
     base = len(events)
@@ -130,6 +179,8 @@ def with_model(ctx, pid, events, rejects):
         rejects[base + idx] = r
     if pid in ("C03", "C04", "C09", "C19", "C20"):          # the countersignature life cycle has requirements of these properties too
         events, rejects = with_cs_model(ctx, pid, events, rejects, light=ctx.quick())
+    if pid in ("C03", "C20"):                          # ... and so has the COSE_Sign life cycle
+        events, rejects = with_sg_model(ctx, pid, events, rejects, light=ctx.quick())
     return events, rejects
 
 
@@ -425,9 +476,10 @@ def c11(ctx):
     cases = gen(ctx, "Gen_C11", cfgtext(invariants=["Emit"], constants=consts), timeout=3000, heap="8g")
     events = harness(ctx, ["exec", "memflow"], cases)
     rejects = judge(ctx, "Trace_C11", events)
+    events, rejects = with_sg_model(ctx, "C11", events, rejects)
     return report(ctx, events, rejects,
-                  nontrivial=lambda e: e["n"] > 0,
-                  key=lambda e: json.dumps([e["flow"], e["n"], e.get("dec"), e.get("vl"), e.get("c"), e.get("hole"), e.get("j"), e.get("what"), e.get("nc")]),
+                  nontrivial=lambda e: "acts" in e or e["n"] > 0,
+                  key=lambda e: json.dumps(e["acts"]) if "acts" in e else json.dumps([e["flow"], e["n"], e.get("dec"), e.get("vl"), e.get("c"), e.get("hole"), e.get("j"), e.get("what"), e.get("nc")]),
                   rule="TLC enumerates COSE_Sign programs: n = 0..N signers of three algorithm families, signing, serialisation, optional wire round trip, "
                        "every subset of slots corrupted (garbage / emptied / overwritten with another slot's signature), verification with every permutation "
                        "class of verifiers and counts n-1, n, n+1; wire images with zero or empty signatures; symbolic signers/verifiers record every call; TLC "
@@ -806,7 +858,9 @@ def replay(ctx, path):
     prefix = None
     if "acts" in ev:                       # a behaviour of one of the life-cycle models
         op, prefix = "memflow", pid + ":"
-        if "okind" in ev:
+        if "sg" in ev:
+            module, kc = "Trace_Sg", dict(MaxHist=0, Record="FALSE", Scope='"all"', MaxLevel=0, **SG_CONSTS)
+        elif "okind" in ev:
             module, kc = "Trace_Model", dict(MaxHist=0, Record="FALSE", KidVals="{0, 1}", **dict(MODEL_CONSTS, ObjKind='"%s"' % ev["okind"]))
         else:
             module, kc = "Trace_Cs", dict(MaxHist=0, Record="FALSE", Scope='"all"', MaxLevel=0, **CS_CONSTS)
